@@ -3,7 +3,7 @@
 
 use proptest::prelude::*;
 
-pub const DIR_NAMES: &[&str] = &["test", "tests", "te", "a", "ab", "src", "src2", "build", "build-tools", "target", "gen", "generated", "x y"];
+pub const DIR_NAMES: &[&str] = &["test", "tests", "te", "a", "ab", "src", "src2", "build", "build-tools", "target", "gen", "generated", "x y", " a", "\tab"];
 pub const FILE_NAMES: &[&str] = &["x.log", "y.rs", "main.rs", "out.o", "notes.txt", "keep.txt", "Makefile", ".hidden", "a.tar.gz", "test", "ab"];
 pub const EXTS: &[&str] = &["log", "rs", "o", "txt", "gz"];
 
@@ -71,12 +71,21 @@ pub fn alpha() -> BoxedStrategy<Alpha> {
 		proptest::sample::subsequence(DIR_NAMES.to_vec(), 3),
 		proptest::sample::subsequence(FILE_NAMES.to_vec(), 3),
 		proptest::bool::weighted(0.5),
+		0u8..10,
 	)
-		.prop_map(|(mut d, f, prefix_pair)| {
+		.prop_map(|(mut d, f, prefix_pair, ws)| {
 			if prefix_pair {
 				// force a prefix-related pair of sibling names
 				d[0] = "test";
 				d[1] = "tests";
+			}
+			if ws == 0 {
+				// names that differ only in leading white space (significant in gitignore patterns)
+				d[1] = "a";
+				d[2] = " a";
+			} else if ws == 1 {
+				d[1] = "ab";
+				d[2] = "\tab";
 			}
 			Alpha {
 				dirs: d.into_iter().map(str::to_string).collect(),
